@@ -70,6 +70,7 @@ type result struct {
 	banned  bool
 	dropped bool
 	rounds  int
+	note    string
 }
 
 func uidFor(seed uint64, i int) gateway.UniqueID {
@@ -262,6 +263,9 @@ func runScen(s Scen) (res result) {
 				res.obs["relay-setup"] = "victim never marked the byzantine peer synced"
 			}
 			atk.relayAt = append(atk.relayAt, len(atk.l.Log()))
+			if tipIdx() != v0.Idx {
+				atk.tipMoved = true // (mixed scenarios) the announcement no longer attaches to the victim's tip
+			}
 			atk.relay(B, V)
 			netsim.WaitUntil(2500*time.Millisecond, func() bool {
 				if bansOfB() > before {
@@ -274,6 +278,12 @@ func runScen(s Scen) (res result) {
 			if s.Field == "missing-fail" {
 				time.Sleep(500 * time.Millisecond)
 			}
+			// a resync triggered by the announcement starts another round with B: let it finish
+			netsim.WaitUntil(5*time.Second, func() bool {
+				p := peerOf(ipB)
+				return p == nil || p.Err() != nil || p.Synced()
+			})
+			time.Sleep(100 * time.Millisecond)
 		} else {
 			// sync-answer attack: wait for a verdict (ban, drop, synced) or for a failed round
 			netsim.WaitUntil(7*time.Second, func() bool {
@@ -404,6 +414,10 @@ func runScen(s Scen) (res result) {
 	if atk.mustBan && !res.banned {
 		// only demanded when the misbehaviour reached its handler
 		reachedHandler := true
+		if s.Attack == "relay-outline" && (atk.tipMoved || res.obs["tip-after-byzantine"] != v0.Idx) {
+			// an outline is judged (work, completeness, validity) only if it attaches to the tip
+			reachedHandler = false
+		}
 		if s.Attack == "invalid-branch" {
 			// the victim only tries the branch if it looks sufficiently heavier than its tip at that time
 			reachedHandler = false
@@ -444,6 +458,7 @@ func runScen(s Scen) (res result) {
 		return // the message order seen by the victim is not determined: monitors only
 	}
 	res.coq = project(s, t, ts, atk, v0, V, H, phases)
+	res.note = atk.note
 	return
 }
 
@@ -488,6 +503,9 @@ func run(c *hx.Ctx) {
 		}
 		if s.Mixed {
 			res.Count("mixed")
+		}
+		if r.note != "" {
+			res.Count("observation:" + r.note)
 		}
 		if r.dropped {
 			res.Count("disconnected-without-ban:" + s.Attack + "/" + s.Field)
